@@ -220,7 +220,15 @@ func observeNumber(agg *sigAgg, v interface{}, viaFunc bool) {
 			}
 		}()
 		if viaFunc {
-			code = jen.LitFunc(func() interface{} { return v })
+			// (a function with a state of its own - an iterator, a counter: only its FIRST result is the literal)
+			calls := 0
+			code = jen.LitFunc(func() interface{} {
+				calls++
+				if calls > 1 {
+					return "called again"
+				}
+				return v
+			})
 		} else {
 			code = jen.Lit(v)
 		}
@@ -647,6 +655,18 @@ func cmdLitsStr(args []string) {
 	codeLike := []string{"a // b", "x /* y */ z", "q, r", "end //", "k: v", "{", "}", "},", "// all of it", "a\n// b", "`", "\"", "tab\t// c", "https://example.com/a//b", ""}
 	observeBulk(agg, "string in a Dict", len(codeLike), func(i int) *jen.Statement { return jen.Lit(codeLike[i]) }, true)
 	observeBulk(agg, "string in a Dict", len(docs), func(i int) *jen.Statement { return jen.Lit(docs[i]) }, true)
+	// a rune and a string that meet in ONE item of a list (quote characters, comment markers on both sides)
+	{
+		qs := []rune{'"', '\'', '`', '/', '\\', '*', 'a', '\n'}
+		n := len(qs) * len(codeLike) * 2
+		observeBulk(agg, "rune next to string", n, func(i int) *jen.Statement {
+			q, t := qs[i/2%len(qs)], codeLike[i/2/len(qs)%len(codeLike)]
+			if i%2 == 0 {
+				return jen.Id("string").Parens(jen.LitRune(q)).Op("+").Lit(t)
+			}
+			return jen.Lit(t).Op("+").Id("string").Parens(jen.LitRune(q))
+		}, false)
+	}
 	observeBulk(agg, "byte in a Dict", 256, func(i int) *jen.Statement { return jen.LitByte(byte(i)) }, true)
 	observeBulk(agg, "rune in a Dict", 200, func(i int) *jen.Statement { return jen.LitRune(rune(i*53%0x2fff + 1)) }, true)
 	// the same literals rendered on several goroutines at once (every goroutine builds its own statements): the value
